@@ -71,6 +71,9 @@ def build(ctx, tier="quick", depth=None):
     a = s.words(s.start, "head", [("KW", "CREATE"), ("KW", "TABLE"), (t, "name")])
     a = s.words(a, "lp", [P["("]])
     a = s.words(a, "col", [(ca, "name"), (typ, "tw1")])
+    a0 = a
+    a = s.words(a, "opt:DEF_NUM", [("KW", "DEFAULT"), (N["NUM"], "value")])     # optionally: an earlier DEFAULT clause
+    s.eps(a0, a)
     a = s.words(a, "sep", [P[","]])
     n = s.edge(a, cb, Tag("col", True, "name"))
     O = s.new()
